@@ -813,6 +813,7 @@ func short(xs []string) []string {
 
 func TestMain(m *testing.M) {
 	vt.ReplayRepeat["tagrace"] = 100
+	vt.ReplayRepeat["gcrace"] = 60
 	vt.ReplayRepeat["main"], vt.ReplayRepeat["alias"] = 20, 20
 	vt.Main(m, "C09",
 		vt.NewLeg("main", 2500, 6000, 16, genCase, runCase),
@@ -820,6 +821,7 @@ func TestMain(m *testing.M) {
 		vt.NewLeg("wide", 300, 1200, 4, genWide, runCase),
 		vt.NewLeg("tagrace", 300, 1500, 4, genTagRace, runTagRace),
 		vt.NewLeg("delfault", 400, 2000, 4, genDelFault, runDelFault),
+		vt.NewLeg("gcrace", 300, 1500, 4, genGCRace, runGCRace),
 	)
 }
 
